@@ -85,15 +85,27 @@ const CONV_USES: [(bool, bool, bool); 10] = [(true, false, false), (true, false,
 const PAIRS: [(usize, usize, &str); 5] = [(0, 1, "Yuv<->Rgb"), (2, 3, "Rgb<->LinearRgb"), (4, 5, "Yuv<->Xyb"), (6, 7, "Yuv<->LinearRgb"), (8, 9, "Rgb<->Xyb")];
 
 fn run_triple<T: Pixel>(m: MC, p: CP, t: TC) -> Result<TripleResult, String> {
+    run_triple_ss::<T>(m, p, t, (0, 0))
+}
+
+fn run_triple_ss<T: Pixel>(m: MC, p: CP, t: TC, ss: (u8, u8)) -> Result<TripleResult, String> {
     ev::guarded(|| {
         let depth = if std::mem::size_of::<T>() == 1 { 8 } else { 10 };
-        let cfg = cfg_full(m, t, p, false, depth, (0, 0));
+        let cfg = cfg_full(m, t, p, false, depth, ss);
         let k = 1u32 << (depth - 8);
-        let yuv: Yuv<T> = mk_yuv(&[[100 * k, 120 * k, 140 * k], [16 * k, 128 * k, 128 * k], [200 * k, 90 * k, 170 * k]], cfg);
-        let px = vec![[0.2f32, 0.4, 0.6], [0.0, 0.0, 0.0], [0.9, 0.5, 0.1]];
-        let rgb = Rgb::new(px.clone(), 3, 1, t, p).unwrap();
-        let lin = LinearRgb::new(px.clone(), 3, 1).unwrap();
-        let xyb = Xyb::from(LinearRgb::new(px.clone(), 3, 1).unwrap());
+        let (w, h) = if ss == (0, 0) { (3usize, 1usize) } else { (4usize, 4usize) };
+        let codes = [[100 * k, 120 * k, 140 * k], [16 * k, 128 * k, 128 * k], [200 * k, 90 * k, 170 * k]];
+        let yuv: Yuv<T> = if ss == (0, 0) {
+            mk_yuv(&codes, cfg)
+        } else {
+            let f: Frame<T> = mk_frame(w, h, ss, 0, |pl, x, y| codes[(x + y) % 3][pl]);
+            Yuv::new(f, cfg).expect("well-formed subsampled frame")
+        };
+        let base = [[0.2f32, 0.4, 0.6], [0.0, 0.0, 0.0], [0.9, 0.5, 0.1]];
+        let px: Vec<[f32; 3]> = (0..w * h).map(|i| base[i % 3]).collect();
+        let rgb = Rgb::new(px.clone(), w, h, t, p).unwrap();
+        let lin = LinearRgb::new(px.clone(), w, h).unwrap();
+        let xyb = Xyb::from(LinearRgb::new(px.clone(), w, h).unwrap());
         TripleResult {
             r: [
                 Rgb::try_from(&yuv).map(|o| hash_data(o.data())),
@@ -260,6 +272,40 @@ pub fn c14(ctx: &Ctx) {
             }
         }
     }
+    // the same contract with subsampled layouts (first visiting order only): support must not depend on the layout
+    let mut sub_evals = 0u64;
+    for (tidx, &(m, p, t)) in triples.iter().enumerate() {
+        for ss in [(1u8, 1u8), (1, 0), (2, 2)] {
+            for u8s in [true, false] {
+                let res = if u8s { run_triple_ss::<u8>(m, p, t, ss) } else { run_triple_ss::<u16>(m, p, t, ss) };
+                sub_evals += 10;
+                match res {
+                    Err(msg) => ev::violation(
+                        format!("C14|panic|subsampled|{}", ev::panic_site(&msg)),
+                        format!("a conversion panicked for ({m:?}, {p:?}, {t:?}) with subsampling {ss:?}: {msg}"),
+                        tj(m, p, t, u8s).set("ss", [ss.0, ss.1]),
+                    ),
+                    Ok(r) => {
+                        // same success/error pattern as the 4:4:4 run of the first pass
+                        if let Some(prev) = first_pass_results.get(&(tidx, u8s)) {
+                            for i in 0..10 {
+                                if prev[i].is_some() != r.r[i].is_ok() {
+                                    ev::violation(
+                                        format!("C14|layout-dependent-support|{}", CONV_NAMES[i]),
+                                        format!("{} for ({m:?}, {p:?}, {t:?}): ok={} at 4:4:4 but ok={} with subsampling {ss:?}", CONV_NAMES[i], prev[i].is_some(), r.r[i].is_ok()),
+                                        tj(m, p, t, u8s).set("ss", [ss.0, ss.1]).set("conversion", CONV_NAMES[i]),
+                                    );
+                                    break;
+                                }
+                            }
+                        }
+                    }
+                }
+            }
+        }
+    }
+    evals += sub_evals;
+    ev::observe("subsampled_layout_evaluations", sub_evals);
     ev::observe("triples", triples.len());
     ev::observe("visiting_orders", J::Arr(orders.iter().map(|(n, _)| J::from(n.as_str())).collect()));
     ev::observe("panics", panics);
